@@ -16,7 +16,8 @@ ASSUMPTIONS = [
 
 def tasks(tier):
     from contracts.wire_ctx import ProposedContextFromWireTask
-    return [N.NegAcceptorTask("C10/"), N.RoleTableTask("C10/"), N.NegUnrestrictedTask("C10/"), N.TsInvariantTask("C10/"),
+    from contracts.acse_neg import AcceptorSiteTask
+    return [AcceptorSiteTask("C10/"), N.NegAcceptorTask("C10/"), N.RoleTableTask("C10/"), N.NegUnrestrictedTask("C10/"), N.TsInvariantTask("C10/"),
             ProposedContextFromWireTask("C10/"), N.NegAcceptorFamilyTask("C10/")]
 
 
